@@ -58,7 +58,7 @@ class C12(Check):
         q = tier == 'quick'
         cfgs = []
         for (P, K, n) in ([(4, 2, 1), (4, 2, 2), (5, 2, 2)] if q else
-                          [(4, 2, 1), (4, 2, 2), (5, 2, 2), (6, 2, 2), (6, 3, 2), (6, 2, 3), (6, 3, 1)]):
+                          [(4, 2, 1), (4, 2, 2), (5, 2, 2), (6, 2, 2), (6, 3, 2), (6, 2, 3), (6, 3, 1), (7, 2, 2), (7, 3, 2)]):
             cfgs.append(Config('stats_P%d_K%d_n%d' % (P, K, n), self.stats, {'P': P, 'K': K, 'n': n},
                                split=2, witness_every=3))
         for (P, K, mmax) in ([(5, 2, 1)] if q else [(5, 2, 2), (6, 3, 1), (6, 2, 2)]):
